@@ -20,10 +20,10 @@ const prop = "C19"
 
 func TestMain(m *testing.M) {
 	evid.Main(m, prop, "fault_enumeration",
-		"each case builds the real \"sync\" handler (blobserver.CreateHandler) over a harness source store, a destination that is a harness store (4 of 5) or a real index.Index over a harness KV (1 of 5; its CommitBatch is then the faultable/holdable destination write, delivered = durable have:<ref> row with the right size) and a named harness queue KV, with drawn copierPoolSize and start mode (queue only | fullSyncOnStart | blockingFullSyncOnStart), and plays a drawn history of 3..14 (thorough ..24) steps: "+
+		"each case builds the real \"sync\" handler (blobserver.CreateHandler) over a harness source store, a destination that is a harness store (4 of 5) or a real index.Index over a harness KV (1 of 5; its CommitBatch is then the faultable/holdable destination write, delivered = durable have:<ref> row with the right size) and a named harness queue KV, with drawn copierPoolSize and start mode (queue only x4 | fullSyncOnStart | blockingFullSyncOnStart | validateOnStart), and plays a drawn history of 3..14 (thorough ..24) steps: "+
 			"upload of one of 2..6 pool blobs through blobserver.Receive (repeats = duplicate uploads and client retries), "+
 			"finite fault window (the next 1..6 calls) on to.ReceiveBlob {error, stored-but-error, wrong size}, from.Fetch {error, size mismatch, corrupt bytes}, queue.Set/Delete {error, applied-but-error}, queue.Find {error}, "+
-			"hold/release of a copier call site (to.ReceiveBlob, from.Fetch, queue.Delete = slow call), pause, and restart (old wrappers fenced: calls in flight finish, every later call of the old handler's goroutines has no effect; new wrapper identities, hence a new blob hub, over the same contents and queue rows; a call held at restart never happens = crash at that point); "+
+			"hold/release of a copier call site (to.ReceiveBlob, from.Fetch, queue.Delete = slow call), pause / settle (let the copier run), and restart (old wrappers fenced: calls in flight finish, every later call of the old handler's goroutines has no effect; new wrapper identities, hence a new blob hub, over the same contents and queue rows; a call held at restart never happens = crash at that point); "+
 			"then faults stop, holds are released and either one fresh blob is uploaded or the loop timer alone must retry. "+
 			"Checked synchronously in the wrappers: at every queue.Delete(ref) the destination holds ref bit-identically and acknowledged it to this handler; at every upload acknowledgement, every restart and the end: each acknowledged blob is in the destination or in the persistent queue; stores only hold uploaded bytes. "+
 			"Bounded eventuality: every acknowledged blob reaches the destination and rows are deleted (unless the Delete call itself was made and failed/raced); a miss counts as violation only after 15 s without ANY lower-layer call while work is pending (loop interval 5 s), otherwise inconclusive. "+
@@ -32,7 +32,7 @@ func TestMain(m *testing.M) {
 
 func genStep(poolSize int) *rapid.Generator[step] {
 	return rapid.Custom(func(t *rapid.T) step {
-		k := rapid.IntRange(0, 15).Draw(t, "kind")
+		k := rapid.IntRange(0, 16).Draw(t, "kind")
 		switch {
 		case k < 6:
 			return step{Kind: "upload", Blob: rapid.IntRange(0, poolSize-1).Draw(t, "blob")}
@@ -46,6 +46,8 @@ func genStep(poolSize int) *rapid.Generator[step] {
 			return step{Kind: "release", Site: rapid.SampledFrom(holdSites).Draw(t, "site")}
 		case k < 14:
 			return step{Kind: "restart"}
+		case k < 15:
+			return step{Kind: "settle"}
 		default:
 			return step{Kind: "pause", Ms: rapid.SampledFrom([]int{0, 1, 3, 10}).Draw(t, "ms")}
 		}
@@ -72,7 +74,7 @@ func genScenario() *rapid.Generator[*scenario] {
 			sc.Pool = keep
 		}
 		sc.CopierPool = rapid.SampledFrom([]int{1, 2, 5}).Draw(t, "copierPoolSize")
-		sc.Mode = rapid.SampledFrom([]string{"queue", "queue", "queue", "queue", "fullSyncOnStart", "blockingFullSyncOnStart"}).Draw(t, "mode")
+		sc.Mode = rapid.SampledFrom([]string{"queue", "queue", "queue", "queue", "fullSyncOnStart", "blockingFullSyncOnStart", "validateOnStart"}).Draw(t, "mode")
 		sc.Steps = rapid.SliceOfN(genStep(len(sc.Pool)), 3, evid.Pick(14, 24)).Draw(t, "steps")
 		sc.Wake = rapid.IntRange(0, 3).Draw(t, "final") != 0
 		return sc
@@ -161,7 +163,7 @@ func TestAsyncSyncDeliversAndQueueIsDurable(t *testing.T) {
 	defer reportInconclusive(t)
 	flag.Set("rapid.shrinktime", "90s")
 	width := evid.Pick(16, 24) // scenarios run concurrently per rapid case: they wait, they do not compute
-	evid.Check(t, 10, 90, func(t *rapid.T) {
+	evid.Check(t, 14, 200, func(t *rapid.T) {
 		batch := rapid.SliceOfN(genScenario(), width, width).Draw(t, "scenarios")
 		runBatch(t, batch)
 	})
